@@ -168,6 +168,10 @@ theorem event_of_op {s s' : State} {op : XOp} {e : Event} (h : step s op.toOp = 
     simp only [XOp.toOp, step] at h
     cases h
     simp [isMintEvent, isPurge, XOp.mints, XOp.isPurge]
+  | govern mp =>
+    simp only [XOp.toOp, step] at h
+    cases h
+    simp [isMintEvent, isPurge, XOp.mints, XOp.isPurge]
 
 /-- an operation that neither mints nor purges produces the event `other` -/
 theorem event_other {s s' : State} {op : XOp} {e : Event} (h : step s op.toOp = .ok (s', e))
@@ -495,6 +499,102 @@ theorem C03_frame_other (x x' : XState) (op : XOp) (e : Event) (h : stepX x op =
     have heff := (step_effect hs).1
     rw [event_other hs rfl rfl] at heff
     exact ⟨by rw [heff.1], heff.2.1, heff.2.2.1, heff.2.2.2⟩
+  | govern mp =>
+    have heff := (step_effect hs).1
+    rw [event_other hs rfl rfl] at heff
+    exact ⟨by rw [heff.1], heff.2.1, heff.2.2.1, heff.2.2.2⟩
+
+/-! ## Governance: the factory maximum is read live (round 3 follow-up)
+
+`Op.govern maxPer` / `XOp.govern maxPer` = factory sudo `UpdateParams` (or factory `migrate` with params) replacing
+`max_per_address_limit`. `C03_public_history`, `C03_wl_history*`, `C03_stage_total_*`, `C03_counter_exact_*`, `C03_report_exact`
+(over `run`) and `C03_public_total`, `C03_wl_total`, `C03_closed_iff_purged` (over `runX`) quantify over ALL operation lists, so
+they now hold for histories containing governance steps; `C03_limits_only_admin` bounds `n` by `s.maxPerAddr` of the state the
+`UpdatePerAddressLimit` executes in, i.e. by the maximum in force at that moment. -/
+
+/-- frame: governance replaces the factory maximum and touches NOTHING else — not the limit in force, not the attached
+whitelist, no counter, not the admin; it always succeeds and is no mint / purge event -/
+theorem C03_govern_frame (s s' : State) (mp : Nat) (e : Event) (h : step s (.govern mp) = .ok (s', e)) :
+    s' = { s with maxPerAddr := mp } ∧ e = .other ∧ s'.limit = s.limit ∧ s'.wl = s.wl ∧ s'.pub = s.pub ∧ s'.wlc = s.wlc ∧
+    s'.stg = s.stg ∧ s'.tot = s.tot ∧ s'.admin = s.admin ∧ s'.kind = s.kind := by
+  simp only [step] at h
+  cases h
+  exact ⟨rfl, rfl, rfl, rfl, rfl, rfl, rfl, rfl, rfl, rfl⟩
+
+theorem C03_govern_frame_X (x x' : XState) (mp : Nat) (e : Event) (h : stepX x (.govern mp) = .ok (x', e)) :
+    x'.base = { x.base with maxPerAddr := mp } ∧ x'.closed = x.closed ∧ e = .other := by
+  obtain ⟨hs, hc, _⟩ := stepX_ok h
+  obtain ⟨h1, h2, _⟩ := C03_govern_frame x.base x'.base mp e hs
+  exact ⟨h1, by simpa [XOp.isPurge] using hc, h2⟩
+
+/-- state after the first operation (failed operations change nothing) -/
+def step' (s : State) (op : Op) : State := (stepAcc (s, []) op).1
+
+theorem run_fst_acc (ops : List Op) (a : State) (evs : List Event) :
+    (ops.foldl stepAcc (a, evs)).1 = (ops.foldl stepAcc (a, [])).1 := by
+  induction ops generalizing a evs with
+  | nil => rfl
+  | cons op ops ih =>
+    simp only [List.foldl_cons]
+    cases h : step a op with
+    | error e => simp only [stepAcc, h]; exact ih a evs
+    | ok p =>
+      obtain ⟨a', e⟩ := p
+      simp only [stepAcc, h]
+      rw [ih a' (evs ++ [e]), ih a' ([] ++ [e])]
+
+theorem run_cons_fst (s : State) (op : Op) (ops : List Op) : (run s (op :: ops)).1 = (run (step' s op) ops).1 := by
+  simp only [run, List.foldl_cons]
+  have : stepAcc (s, []) op = (step' s op, (stepAcc (s, []) op).2) := rfl
+  rw [this, run_fst_acc]
+
+theorem run_append_fst (s : State) (pre post : List Op) : (run s (pre ++ post)).1 = (run (run s pre).1 post).1 := by
+  induction pre generalizing s with
+  | nil => rfl
+  | cons op pre ih => rw [List.cons_append, run_cons_fst, run_cons_fst, ih]
+
+/-- **The limit in force moves only by the admin's UpdatePerAddressLimit within 1..=the factory maximum IN FORCE AT THAT
+MOMENT** — over every history, including governance steps that raise or lower that maximum: the limit in force at the end is
+the initial one, or there is a point of the history where the admin sent `UpdatePerAddressLimit n` with
+`1 ≤ n ≤` the maximum the factory held right then (after all governance steps before it), and `n` is the final limit. -/
+theorem C03_limit_in_force_history (s0 : State) (ops : List Op) :
+    (run s0 ops).1.limit = s0.limit ∨
+    ∃ pre n fu post, ops = pre ++ Op.setLimit (run s0 pre).1.admin n fu :: post ∧
+      1 ≤ n ∧ n ≤ (run s0 pre).1.maxPerAddr ∧ (run s0 ops).1.limit = n := by
+  induction ops generalizing s0 with
+  | nil => left; rfl
+  | cons op ops ih =>
+    rw [run_cons_fst]
+    rcases ih (step' s0 op) with h | ⟨pre, n, fu, post, hops, h1, h2, h3⟩
+    · -- nothing after `op` moved it: did `op`?
+      rw [h]
+      cases hs : step s0 op with
+      | error e => left; simp [step', stepAcc, hs]
+      | ok p =>
+        obtain ⟨s1, e⟩ := p
+        have hs1 : step' s0 op = s1 := by simp [step', stepAcc, hs]
+        rw [hs1]
+        by_cases hne : s1.limit = s0.limit
+        · left; exact hne
+        · right
+          obtain ⟨n, fu, hop, hn, hge, hle⟩ := (C03_limits_only_admin s0 s1 op e hs).1 hne
+          refine ⟨[], n, fu, ops, ?_, hge, hle, hn⟩
+          simp [run, hop]
+    · right
+      refine ⟨op :: pre, n, fu, post, ?_, h1, ?_, h3⟩
+      · rw [run_cons_fst, List.cons_append, hops]
+      · rw [run_cons_fst]; exact h2
+
+/-- non-vacuity: maximum 3, limit 1. `UpdatePerAddressLimit 4` is refused; governance raises the maximum to 5 and the same
+message is accepted; governance lowers it to 2 — the limit in force stays 4 — and now both 4 and 3 (the OLD maximum) are
+refused while 2 is accepted. (open edition: no dynamic 3 % rule) -/
+example :
+    let s0 : State := { exMerkle with maxPerAddr := 3, limit := 1, wl := none }
+    let ops := [Op.setLimit 10 4 false, Op.govern 5, Op.setLimit 10 4 false, Op.govern 2, Op.setLimit 10 4 false,
+                Op.setLimit 10 3 false]
+    (run s0 ops).1.limit = 4 ∧ (run s0 ops).1.maxPerAddr = 2 ∧ (run s0 ops).2.length = 3 ∧
+    (run s0 (ops ++ [Op.setLimit 10 2 false])).1.limit = 2 := by
+  decide
 
 /-! ## Non-vacuity -/
 
